@@ -248,17 +248,18 @@ func (p *Parser) led(tokenType tokType, node ASTNode) (ASTNode, error) {
 			return ASTNode{}, p.syntaxError("Expected a function name before tLparen")
 		}
 		var args []ASTNode
-		for p.current() != tRparen {
-			expression, err := p.parseExpression(0)
-			if err != nil {
-				return ASTNode{}, err
-			}
-			if p.current() == tComma {
-				if err := p.match(tComma); err != nil {
+		if p.current() != tRparen {
+			for {
+				expression, err := p.parseExpression(0)
+				if err != nil {
 					return ASTNode{}, err
 				}
+				args = append(args, expression)
+				if p.current() != tComma {
+					break
+				}
+				p.advance()
 			}
-			args = append(args, expression)
 		}
 		if err := p.match(tRparen); err != nil {
 			return ASTNode{}, err
@@ -466,18 +467,17 @@ func (p *Parser) parseMultiSelectHash() (ASTNode, error) {
 			children: []ASTNode{value},
 		}
 		children = append(children, node)
-		if p.current() == tComma {
-			err := p.match(tComma)
-			if err != nil {
-				return ASTNode{}, nil
-			}
-		} else if p.current() == tRbrace {
-			err := p.match(tRbrace)
-			if err != nil {
-				return ASTNode{}, nil
-			}
+		if p.current() == tRbrace {
 			break
 		}
+		err = p.match(tComma)
+		if err != nil {
+			return ASTNode{}, err
+		}
+	}
+	err := p.match(tRbrace)
+	if err != nil {
+		return ASTNode{}, err
 	}
 	return ASTNode{
 		nodeType: ASTMultiSelectHash,
